@@ -1494,56 +1494,139 @@ def g(ctx):
         nums, rest = _option_domain(ctx, others, lvs)
         return nid, alive, lvs, nums, rest
 
-    # CSM options
-    settings = [(k, st) for k, st in stores_to(fi.node, "self._remote_settings", nested=False)]
-    ctx.floor("stores to _remote_settings in _process_signaling", len(settings), 1)
+    # CSM options.  The peer's settings are the object held by self._remote_settings;
+    # "CSM received" is `self._remote_settings is not None` (the gate of C15.d).  Both
+    # facts are decided on the flow of that object, not on the spelling of the stores:
+    # for every code value 7.00..7.31 a must-alias / nullness flow (K.FieldFlow) says
+    # which locals ARE the settings object at each node and whether the field can still
+    # be None at the normal exit.
+    FIELD = "self._remote_settings"
+
+    def is_field(e):
+        return isinstance(e, ast.Attribute) and chain(e) == FIELD
+
+    for x in ast.walk(fi.node):
+        ctx.need(not isinstance(x, ast.Nonlocal), "a nested function of _process_signaling rebinds its locals")
+    # closed-world premise for "a call does not swap the settings object under a local
+    # alias": no function of the package other than this one (and constructors, which do
+    # not run on an existing connection) assigns or deletes <x>._remote_settings
+    foreign = sorted(short for short, hits in field_writers(prog, "_remote_settings").items()
+                     if short != fi.short and short.rsplit(".", 1)[-1] != "__init__" and any(k_ in ("assign", "del") for k_, _n in hits))
+    calls_rebind = bool(foreign) or any(isinstance(x, ast.Attribute) and x.attr == "__init__" for x in ast.walk(fi.node))
+    if foreign:
+        ctx.note("_remote_settings is also assigned in %s: calls forget what the field holds" % ", ".join(foreign))
+    flows = {}
+    for v in sorted(dom):
+        flows[v] = K.FieldFlow(cfg, FIELD, decide=lambda nid, v=v: _eval_code_test(ctx, fi.module, cfg.nodes[nid].ast, is_code, v), calls_rebind=calls_rebind)
+    may = K.may_aliases(fi.node, FIELD)
+    for x in walk_with_lambdas(fi.node):
+        if x is not fi.node and isinstance(x, (ast.Lambda, ast.FunctionDef, ast.AsyncFunctionDef)):
+            inner = {chain(y) for y in ast.walk(x) if isinstance(y, ast.Attribute)} | {y.id for y in ast.walk(x) if isinstance(y, ast.Name)}
+            ctx.need(FIELD not in inner and not (may & inner), "the peer's settings are used inside a nested function of _process_signaling")
+    effects = {}  # (kind, id(site), key text) -> [kind, site, key, value, node id, alive codes]
+    unsure = {}
+    for v, fl in flows.items():
+        for node in cfg.nodes:
+            if not fl.reachable(node.id) or node.ast is None:
+                continue
+            sure = fl.aliases(node.id)
+            for kind, site_, *kv in K.dict_effects(node, sure, is_field):
+                key_, val_ = (kv + [None, None])[:2] if kind != "rebind" else (None, kv[0])
+                rec = effects.setdefault((kind, id(site_), _txt(key_) if key_ is not None else None), [kind, site_, key_, val_, node.id, set()])
+                rec[5].add(v)
+            for kind, site_, *kv in K.dict_effects(node, may - sure, lambda e: False):
+                if kind != "escape":
+                    unsure[id(site_)] = site_
+    recs = sorted(effects.values(), key=lambda r: (r[4], r[0], _txt(r[2]) if r[2] is not None else ""))
+    ctx.floor("stores to the peer's settings in _process_signaling", len([r for r in recs if r[0] in ("rebind", "set")]), 1)
+    csm = SIGNALLING["CSM"]
     seen_keys = {}
-    for kind, st in settings:
-        nid, alive, lvs, nums, rest = site(st)
-        if kind == "assign":
-            v = st.value if isinstance(st, ast.Assign) else None
-            nonnull = isinstance(v, ast.Dict) or (isinstance(v, ast.Call) and chain(v.func) == "dict")
-            rest2 = [(g_, pol) for g_, pol in rest if not (Normalizer().cmp(g_) == ("is", "self._remote_settings", "None") and pol) and not (Normalizer().cmp(g_) == ("isnot", "self._remote_settings", "None") and not pol)]
-            ctx.ob("the peer's settings become non-None exactly on a CSM", nonnull and alive == {SIGNALLING["CSM"]} and not rest2 and not lvs, fi, st,
-                   detail="codes %s, further conditions %s" % (sorted(alive), [_txt(g_) for g_, _ in rest2]))
-        elif kind == "setitem" and isinstance(st, ast.Assign) and isinstance(st.targets[0], ast.Subscript):
-            key = st.targets[0].slice
-            kv = key.value if isinstance(key, ast.Constant) else None
-            seen_keys[kv] = (st, alive, lvs, nums, rest)
-        else:
+    opaque = []
+    for kind, st, key, val, nid, alive in recs:
+        if kind == "rebind":
+            # whatever is assigned is not None (in the state of every code that gets here),
+            # and nothing but a CSM gets here
+            nonnull = val is not None and all(flows[v].nullness(val, flows[v].inn[nid]) == K.NULL_OBJ for v in alive)
+            ctx.ob("the peer's settings are assigned only on a CSM, and never None", nonnull and alive == {csm}, fi, st,
+                   detail="codes %s, value %s" % (sorted(alive), _txt(val) if val is not None else None))
+        elif kind == "set":
+            alts = _possible_values(fi, cfg, key, nid)
+            kvs = []
+            for a_ in alts or [None]:
+                try:
+                    kvs.append(norm.consteval(a_) if a_ is not None else None)
+                except NormError:
+                    kvs.append(None)
+            if len(kvs) != 1 or not isinstance(kvs[0], str):
+                # a key that is computed (table lookup, several possible values): which
+                # option writes which key cannot be read off the guards of the site
+                opaque.append("key %s of %s" % (_txt(key), _txt(st)))
+                continue
+            seen_keys.setdefault(kvs[0], []).append((st, val, nid, alive))
+        elif kind == "merge":
+            opaque.append(_txt(st))
+        elif kind == "other":
             ctx.ob("_remote_settings is only initialised and filled from CSM options", False, fi, st)
+    escapes = [r[1] for r in recs if r[0] == "escape"]
+    # "CSM received": at the normal exit of a CSM the field is not None on every path
+    # (this is what makes the C15.d gate open after ANY CSM, with or without options);
+    # for the other codes the rebind obligation above leaves the field as it was
+    fl = flows[csm]
+    exit_null = fl.field_nullness(cfg.exit) if fl.reachable(cfg.exit) else None
+    ctx.ob("after a CSM the peer's settings are not None on every normal path", exit_null == K.NULL_OBJ, fi, fi.node, construct="_process_signaling: CSM received",
+           detail="nullness of self._remote_settings at the normal exit: %s" % (exit_null or "no normal exit"))
     want_opts = {"max-message-size": 2, "block-wise-transfer": 4}
+    missing = [key for key in sorted(want_opts) if key not in seen_keys]
+    if missing and (opaque or unsure or escapes):
+        # the keys may well be written, through something this rule cannot follow
+        raise AnalysisError("the stores into the peer's settings cannot be followed: %s" % "; ".join(
+            opaque + [_txt(x) for x in unsure.values()] + ["settings handed to %s" % _txt(x) for x in escapes]))
     for key, num in sorted(want_opts.items()):
         if key not in seen_keys:
             ctx.ob("CSM option %d is recorded as %r" % (num, key), False, fi, fi.node, construct="_process_signaling")
             continue
-        st, alive, lvs, nums, rest = seen_keys[key]
-        ctx.ob("CSM option %d (and only it, only in a CSM) is recorded as %r" % (num, key), alive == {SIGNALLING["CSM"]} and nums == {num} and len(lvs) == 1 and not rest, fi, st,
-               detail="codes %s, option numbers %s, further conditions %s" % (sorted(alive), sorted(nums), [_txt(g_) for g_, _ in rest]))
-        if num == 2 and len(lvs) == 1:
-            lv = next(iter(lvs))
-            b_ = match("int.from_bytes(%s.value, $*o, $**k)" % lv, st.value)
-            ok = b_ is not None and _bytes_order(st.value, 1) == "big"
-            ctx.ob("Max-Message-Size is read as a big-endian unsigned integer from the option value", ok, fi, st)
-    for key in seen_keys:
+        for st, val, nid, alive in seen_keys[key]:
+            _nid, _alive, lvs, nums, rest = site(st)
+            ctx.ob("CSM option %d (and only it, only in a CSM) is recorded as %r" % (num, key), alive == {csm} and nums == {num} and len(lvs) == 1 and not rest, fi, st,
+                   detail="codes %s, option numbers %s, further conditions %s" % (sorted(alive), sorted(nums), [_txt(g_) for g_, _ in rest]))
+            if num == 2 and len(lvs) == 1:
+                lv = next(iter(lvs))
+                val_ = _resolve_at(fi, cfg, val, nid)
+                b_ = match("int.from_bytes(%s.value, $*o, $**k)" % lv, val_)
+                ok = b_ is not None and _bytes_order(val_, 1) == "big"
+                ctx.ob("Max-Message-Size is read as a big-endian unsigned integer from the option value", ok, fi, st)
+    for key in sorted(seen_keys):
         if key not in want_opts:
             ctx.note("additional setting recorded: %r" % (key,))
+    if opaque or unsure:
+        raise_later = "stores that may reach the peer's settings cannot be followed: %s" % "; ".join(opaque + [_txt(x) for x in unsure.values()])
+    else:
+        raise_later = None
     # readers of the settings use the keys written
     rcls = prog.cls("transports.rfc8323common.RFC8323Remote")
     read = 0
 
-    def on_settings(e):
-        return "self._remote_settings" in {chain(x) for x in ast.walk(e) if isinstance(x, ast.Attribute)}
+    def on_settings(e, fnode, depth=4):
+        # the receiver is, or is computed from, the settings: `self._remote_settings`,
+        # `(self._remote_settings or {})`, or a local that was bound from such an expression
+        for x in ast.walk(e):
+            if isinstance(x, ast.Attribute) and chain(x) == FIELD:
+                return True
+            if isinstance(x, ast.Name) and isinstance(x.ctx, ast.Load) and depth:
+                r = resolve_local(fnode, x)
+                if r is not x and on_settings(r, fnode, depth - 1):
+                    return True
+        return False
 
     for mname, mfi in sorted(rcls.methods.items()):
         # every spelling of a keyed read: .get(k[, d]), [k], `k in`
         for x in walk_no_nested(mfi.node):
             k = None
-            if isinstance(x, ast.Call) and isinstance(x.func, ast.Attribute) and x.func.attr == "get" and x.args and on_settings(x.func.value):
+            if isinstance(x, ast.Call) and isinstance(x.func, ast.Attribute) and x.func.attr == "get" and x.args and on_settings(x.func.value, mfi.node):
                 k = x.args[0]
-            elif isinstance(x, ast.Subscript) and isinstance(x.ctx, ast.Load) and not isinstance(x.slice, ast.Slice) and on_settings(x.value):
+            elif isinstance(x, ast.Subscript) and isinstance(x.ctx, ast.Load) and not isinstance(x.slice, ast.Slice) and on_settings(x.value, mfi.node):
                 k = x.slice
-            elif isinstance(x, ast.Compare) and len(x.ops) == 1 and isinstance(x.ops[0], (ast.In, ast.NotIn)) and on_settings(x.comparators[0]):
+            elif isinstance(x, ast.Compare) and len(x.ops) == 1 and isinstance(x.ops[0], (ast.In, ast.NotIn)) and on_settings(x.comparators[0], mfi.node):
                 k = x.left
             if k is None:
                 continue
@@ -1740,6 +1823,8 @@ def g(ctx):
     mcfg = cfg_of(mfi)
     ic = [mcfg.loc1(c_) for c_, _ in find("self._send_initial_csm()", mfi.node)]
     ctx.ob("connection_made sends the CSM on every normal path", bool(ic) and mcfg.must_pass(mcfg.entry, ic), mfi, mfi.node, construct="connection_made")
+    if raise_later:
+        raise AnalysisError(raise_later)
 
 
 # ---------------------------------------------------------------------------
